@@ -540,6 +540,20 @@ theorem freeze_full (r : R) (cfg : Cfg) (etag m : Str) (e : CloseEv)
     · rw [C05L.set_getlist_ne _ _ _ _ (by decide)]
       exact C16L.set_getlist' _ _ _ _ (by decide) (C16L.natText_noNL _)
 
+/-- `response.stream.write(b)` on a sequence body appends `b` and leaves NO Content-Length header
+behind - on every write, whatever happened in between (`set_data`, `freeze`, … may have stored one
+again) - so that `get_wsgi_response` computes the length of the body that is actually sent
+(`auto_length_exact`) -/
+theorem stream_write_drops_length (s : St) (b : Bytes) (hk : s.r.body.kind = .seq) :
+    (nextEv s (.streamWrite b)).1.r.body = ⟨.seq, s.r.body.items ++ [.bytes b]⟩ ∧
+    getlist (nextEv s (.streamWrite b)).1.r.headers "content-length".toList = [] := by
+  have hn : nextEv s (.streamWrite b) =
+      ({ s with r := { s.r with body := ⟨.seq, s.r.body.items ++ [.bytes b]⟩,
+                                headers := (popKey s.r.headers "Content-Length".toList (some [])).1 } }, .ok .unit) := by
+    simp only [nextEv, ensureSequence, hk]
+  rw [hn]
+  exact ⟨rfl, popKey_getlist _ _ _ (by decide)⟩
+
 /-- `set_data(value)` replaces the body by the one byte string and (with
 `automatically_set_content_length`) stores its exact length; `get_data()` on a streamed body is
 refused with RuntimeError - leaving the response as it was - in direct passthrough mode or when
